@@ -1,9 +1,2043 @@
-use crate::check::CompResult;
+//! C19 — MemStorage honours the Storage contract.
+//!
+//! Joint breadth-first search over pairs *(real `raft::storage::MemStorage`, reference
+//! model)* under every operation of a small alphabet, until a fixpoint under value
+//! bounds.  `MemStorage` is `Arc<RwLock<MemStorageCore>>` (cloning aliases the core), so
+//! every successor is built on a *fresh* `MemStorage` by replaying the operation history
+//! of its parent from `MemStorage::new()` and then applying the one new operation.  The
+//! same histories are applied to `crate::sim::Store` (SimStorage, the storage used by the
+//! cluster explorer) and the read-side of the same oracle is evaluated on it; a
+//! disagreement there is a machinery error, not a property violation.
+//!
+//! Reference model: a snapshot point `(index, term)`, the entry just before the first
+//! readable one (`prev`, equal to the snapshot point unless the log was compacted past
+//! it), a contiguous vector of entry terms starting at `prev.index + 1`, the stored hard
+//! state and the stored configuration.
+//!
+//! What the oracle demands (and nothing more):
+//! * `first_index`/`last_index` equal the model's;
+//! * `term(i)`: stored entries answer their term; `i > last` answers `Unavailable`; the
+//!   snapshot point answers the snapshot term whenever it is `first_index-1`; any other
+//!   index below `first_index` answers `Compacted` — except that an implementation may
+//!   also answer the *true* term where the model still knows it (the index just before
+//!   `first_index` after a compaction, where the trait doc even says the term "is
+//!   retained", and a snapshot point that was compacted past).  Wrong data is never
+//!   accepted.  Which of the two permitted answers was given is counted in the stats.
+//! * `entries(lo,hi,limit)` for `lo < hi <= last+1`: `Compacted` iff `lo < first`, else
+//!   the maximal prefix of the range that fits the limit, never empty;
+//! * `snapshot(req)` for `req <= commit` (when the commit index is still present in the
+//!   log or is the snapshot point): index == commit >= req, term == term of that index,
+//!   conf state == the stored one;
+//! * `initial_state()` returns the stored hard state and conf state;
+//! * mutators within their documented preconditions do not panic, return `Ok` — except
+//!   `apply_snapshot` below `first_index`, which must answer `SnapshotOutOfDate` and
+//!   change nothing;
+//! * separate sub-alphabet: empty in-range reads `entries(lo,lo)` answer `Ok([])`.
+//!   On an empty log MemStorage panics there (design-time observation O3); this is
+//!   reported under its own kind and never stops or masks the rest of the search.
 
-pub fn run(_tier: &str, _seed: u64, _budget_s: f64, _threads: usize) -> CompResult {
-    super::not_built("memstorage")
+use crate::check::CompResult;
+use crate::sim::{Store, WriteOp};
+use crate::util::{guarded, W};
+use protobuf::Message as PbMessage;
+use raft::eraftpb::{ConfState, Entry, HardState, Snapshot};
+use raft::storage::MemStorage;
+use raft::{Error, GetEntriesContext, Storage, StorageError};
+use serde_json::{json, Value};
+use std::collections::{BTreeMap, HashMap, HashSet};
+use std::sync::atomic::{AtomicBool, AtomicUsize, Ordering};
+use std::time::Instant;
+
+const MAXE: usize = 10;
+pub const O3_KIND: &str = "empty range read panics on empty log";
+const SIM_PREFIX: &str = "simstorage disagreement: ";
+
+// ------------------------------------------------------------------------------------
+// values
+
+fn cs_of(k: u8) -> ConfState {
+    let mut cs = ConfState::default();
+    match k {
+        0 => {}
+        1 => {
+            cs.set_voters(vec![1, 2]);
+            cs.set_learners(vec![3]);
+        }
+        _ => {
+            cs.set_voters(vec![1, 2, 3]);
+        }
+    }
+    cs
 }
 
-pub fn replay(_j: &serde_json::Value) -> i32 {
-    2
+/// The full entry is a function of (index, term) so the model only stores terms; the
+/// payload length varies so that entries have different encoded sizes.
+fn mk_entry(index: u64, term: u64) -> Entry {
+    let mut e = Entry::default();
+    e.index = index;
+    e.term = term;
+    let len = ((index * 2 + term) % 4) as usize;
+    e.data = vec![0xA0u8 + term as u8; len].into();
+    e
+}
+
+fn mk_snap(index: u64, term: u64, cs: u8) -> Snapshot {
+    let mut s = Snapshot::default();
+    let m = s.mut_metadata();
+    m.index = index;
+    m.term = term;
+    m.set_conf_state(cs_of(cs));
+    s
+}
+
+fn mk_hs(term: u64, vote: u64, commit: u64) -> HardState {
+    let mut hs = HardState::default();
+    hs.term = term;
+    hs.vote = vote;
+    hs.commit = commit;
+    hs
+}
+
+// ------------------------------------------------------------------------------------
+// operations
+
+#[derive(Clone, Copy, PartialEq, Eq, Debug)]
+enum Op {
+    Append { start: u8, n: u8, t: [u8; 2] },
+    Compact(u8),
+    Snap { i: u8, t: u8, cs: u8 },
+    SetHs { term: u8, vote: u8, commit: u8 },
+    CommitTo(u8),
+    SetCs(u8),
+}
+
+impl Op {
+    fn name(&self) -> &'static str {
+        match self {
+            Op::Append { .. } => "append",
+            Op::Compact(_) => "compact",
+            Op::Snap { .. } => "apply_snapshot",
+            Op::SetHs { .. } => "set_hardstate",
+            Op::CommitTo(_) => "commit_to",
+            Op::SetCs(_) => "set_conf_state",
+        }
+    }
+
+    fn entries(&self) -> Vec<Entry> {
+        match *self {
+            Op::Append { start, n, t } => (0..n as usize)
+                .map(|k| mk_entry(start as u64 + k as u64, t[k] as u64))
+                .collect(),
+            _ => vec![],
+        }
+    }
+
+    fn to_json(&self) -> Value {
+        match *self {
+            Op::Append { start, n, t } => {
+                let ents: Vec<Value> = (0..n as usize)
+                    .map(|k| json!([start as u64 + k as u64, t[k]]))
+                    .collect();
+                json!({"op": "append", "entries": ents})
+            }
+            Op::Compact(c) => json!({"op": "compact", "index": c}),
+            Op::Snap { i, t, cs } => {
+                json!({"op": "apply_snapshot", "index": i, "term": t, "conf_state": cs})
+            }
+            Op::SetHs { term, vote, commit } => {
+                json!({"op": "set_hardstate", "term": term, "vote": vote, "commit": commit})
+            }
+            Op::CommitTo(i) => json!({"op": "commit_to", "index": i}),
+            Op::SetCs(cs) => json!({"op": "set_conf_state", "conf_state": cs}),
+        }
+    }
+
+    fn from_json(j: &Value) -> Option<Op> {
+        let u = |k: &str| j.get(k).and_then(|v| v.as_u64()).filter(|v| *v < 250).map(|v| v as u8);
+        match j.get("op")?.as_str()? {
+            "append" => {
+                let a = j.get("entries")?.as_array()?;
+                if a.is_empty() || a.len() > 2 {
+                    return None;
+                }
+                let mut t = [0u8; 2];
+                let start = a[0].get(0)?.as_u64()?;
+                for (k, e) in a.iter().enumerate() {
+                    if e.get(0)?.as_u64()? != start + k as u64 {
+                        return None;
+                    }
+                    t[k] = e.get(1)?.as_u64().filter(|v| *v < 250)? as u8;
+                }
+                if start >= 250 {
+                    return None;
+                }
+                Some(Op::Append {
+                    start: start as u8,
+                    n: a.len() as u8,
+                    t,
+                })
+            }
+            "compact" => Some(Op::Compact(u("index")?)),
+            "apply_snapshot" => Some(Op::Snap {
+                i: u("index")?,
+                t: u("term")?,
+                cs: u("conf_state")?,
+            }),
+            "set_hardstate" => Some(Op::SetHs {
+                term: u("term")?,
+                vote: u("vote")?,
+                commit: u("commit")?,
+            }),
+            "commit_to" => Some(Op::CommitTo(u("index")?)),
+            "set_conf_state" => Some(Op::SetCs(u("conf_state")?)),
+            _ => None,
+        }
+    }
+}
+
+fn hist_json(h: &[Op]) -> Value {
+    json!({
+        "init": "MemStorage::new()",
+        "history": h.iter().map(|o| o.to_json()).collect::<Vec<_>>(),
+    })
+}
+
+// ------------------------------------------------------------------------------------
+// reference model
+
+#[derive(Clone, Copy, PartialEq, Eq, Hash, Debug)]
+struct Model {
+    /// snapshot point
+    snap_i: u8,
+    snap_t: u8,
+    /// the entry just before the first readable one; == snapshot point unless compacted past it
+    prev_i: u8,
+    prev_t: u8,
+    /// terms of the readable entries prev_i+1 ..= prev_i+n
+    n: u8,
+    ents: [u8; MAXE],
+    hs_term: u8,
+    hs_vote: u8,
+    hs_commit: u8,
+    cs: u8,
+}
+
+#[derive(Clone, Copy, PartialEq, Eq, Debug)]
+enum Expect {
+    Ok,
+    OutOfDate,
+}
+
+impl Model {
+    fn new() -> Model {
+        Model {
+            snap_i: 0,
+            snap_t: 0,
+            prev_i: 0,
+            prev_t: 0,
+            n: 0,
+            ents: [0; MAXE],
+            hs_term: 0,
+            hs_vote: 0,
+            hs_commit: 0,
+            cs: 0,
+        }
+    }
+    fn first(&self) -> u64 {
+        self.prev_i as u64 + 1
+    }
+    fn last(&self) -> u64 {
+        self.prev_i as u64 + self.n as u64
+    }
+    fn compacted_past_snapshot(&self) -> bool {
+        self.prev_i != self.snap_i
+    }
+    /// term of a readable entry
+    fn term_at(&self, i: u64) -> Option<u64> {
+        if i >= self.first() && i <= self.last() {
+            Some(self.ents[(i - self.first()) as usize] as u64)
+        } else {
+            None
+        }
+    }
+    /// term of the entry before `start`, for first <= start <= last+1
+    fn term_before(&self, start: u64) -> u64 {
+        if start == self.first() {
+            self.prev_t as u64
+        } else {
+            self.term_at(start - 1).unwrap()
+        }
+    }
+    /// term of the stored commit index if that index is still known to the storage
+    /// (it is the snapshot point, or a readable entry)
+    fn commit_term(&self) -> Option<u64> {
+        let c = self.hs_commit as u64;
+        if c == self.snap_i as u64 {
+            Some(self.snap_t as u64)
+        } else {
+            self.term_at(c)
+        }
+    }
+
+    /// Is `op` inside the documented preconditions (and the alphabet's shape)?
+    fn legal(&self, op: &Op) -> bool {
+        let (first, last) = (self.first(), self.last());
+        match *op {
+            Op::Append { start, n, t } => {
+                let start = start as u64;
+                if n == 0 || n > 2 || start < first || start > last + 1 {
+                    return false;
+                }
+                if (start - first) as usize + n as usize > MAXE {
+                    return false;
+                }
+                let mut pt = self.term_before(start).max(1);
+                for k in 0..n as usize {
+                    if (t[k] as u64) < pt {
+                        return false;
+                    }
+                    pt = t[k] as u64;
+                }
+                true
+            }
+            // compact(last+1) is admitted by the documented panic bound but the doc makes
+            // compaction beyond applied the application's responsibility: probe only
+            Op::Compact(c) => (c as u64) <= last,
+            Op::Snap { cs, .. } => cs <= 2,
+            Op::SetHs { commit, .. } => {
+                let c = commit as u64;
+                (c == self.snap_i as u64 && !self.compacted_past_snapshot())
+                    || self.term_at(c).is_some()
+            }
+            Op::CommitTo(i) => self.term_at(i as u64).is_some(),
+            Op::SetCs(cs) => cs <= 2,
+        }
+    }
+
+    fn apply(&mut self, op: &Op) -> Expect {
+        match *op {
+            Op::Append { start, n, t } => {
+                let keep = (start as u64 - self.first()) as usize;
+                for k in 0..n as usize {
+                    self.ents[keep + k] = t[k];
+                }
+                for k in keep + n as usize..MAXE {
+                    self.ents[k] = 0;
+                }
+                self.n = (keep + n as usize) as u8;
+                Expect::Ok
+            }
+            Op::Compact(c) => {
+                let c = c as u64;
+                if c > self.first() {
+                    let drop = (c - self.first()) as usize;
+                    let pt = self.ents[drop - 1];
+                    let old_n = self.n as usize;
+                    let mut ne = [0u8; MAXE];
+                    ne[..old_n - drop].copy_from_slice(&self.ents[drop..old_n]);
+                    self.ents = ne;
+                    self.n = (old_n - drop) as u8;
+                    self.prev_i = (c - 1) as u8;
+                    self.prev_t = pt;
+                }
+                Expect::Ok
+            }
+            Op::Snap { i, t, cs } => {
+                if (i as u64) < self.first() {
+                    return Expect::OutOfDate;
+                }
+                self.snap_i = i;
+                self.snap_t = t;
+                self.prev_i = i;
+                self.prev_t = t;
+                self.n = 0;
+                self.ents = [0; MAXE];
+                self.hs_term = self.hs_term.max(t);
+                self.hs_commit = i;
+                self.cs = cs;
+                Expect::Ok
+            }
+            Op::SetHs { term, vote, commit } => {
+                self.hs_term = term;
+                self.hs_vote = vote;
+                self.hs_commit = commit;
+                Expect::Ok
+            }
+            Op::CommitTo(i) => {
+                self.hs_commit = i;
+                self.hs_term = self.term_at(i as u64).unwrap() as u8;
+                Expect::Ok
+            }
+            Op::SetCs(cs) => {
+                self.cs = cs;
+                Expect::Ok
+            }
+        }
+    }
+
+    fn write(&self, w: &mut W) {
+        w.u8(self.snap_i);
+        w.u8(self.snap_t);
+        w.u8(self.prev_i);
+        w.u8(self.prev_t);
+        w.u8(self.n);
+        for k in 0..self.n as usize {
+            w.u8(self.ents[k]);
+        }
+        w.u8(self.hs_term);
+        w.u8(self.hs_vote);
+        w.u8(self.hs_commit);
+        w.u8(self.cs);
+    }
+
+    fn describe(&self) -> String {
+        let ents: Vec<String> = (0..self.n as usize)
+            .map(|k| format!("{}:t{}", self.first() + k as u64, self.ents[k]))
+            .collect();
+        format!(
+            "model{{snapshot point ({},t{}), before-first ({},t{}), entries [{}], hs(term {}, vote {}, commit {}), cs#{}}}",
+            self.snap_i,
+            self.snap_t,
+            self.prev_i,
+            self.prev_t,
+            ents.join(" "),
+            self.hs_term,
+            self.hs_vote,
+            self.hs_commit,
+            self.cs
+        )
+    }
+}
+
+// ------------------------------------------------------------------------------------
+// bounds and alphabet
+
+#[derive(Clone, Debug)]
+struct Bounds {
+    max_index: u64,
+    max_term: u64,
+    hs_terms: Vec<u8>,
+    votes: Vec<u8>,
+    max_states: usize,
+}
+
+fn bounds_for(tier: &str) -> Bounds {
+    let mut b = if tier == "thorough" {
+        Bounds {
+            max_index: 8,
+            max_term: 4,
+            hs_terms: vec![0, 1, 2, 3, 4],
+            votes: vec![0, 1],
+            max_states: 40_000_000,
+        }
+    } else {
+        Bounds {
+            max_index: 6,
+            max_term: 3,
+            hs_terms: vec![0, 1, 2, 3],
+            votes: vec![0, 1],
+            max_states: 10_000_000,
+        }
+    };
+    if let Some(v) = std::env::var("RMC_C19_MAX_INDEX").ok().and_then(|v| v.parse::<u64>().ok()) {
+        b.max_index = v.clamp(1, MAXE as u64 - 1);
+    }
+    if let Some(v) = std::env::var("RMC_C19_MAX_TERM").ok().and_then(|v| v.parse::<u64>().ok()) {
+        b.max_term = v.clamp(1, 9);
+        b.hs_terms = (0..=b.max_term as u8).collect();
+    }
+    b
+}
+
+fn alphabet(m: &Model, b: &Bounds, out: &mut Vec<Op>) {
+    out.clear();
+    let (first, last) = (m.first(), m.last());
+    // append: every legal start (first ..= last+1), 1-2 entries, terms non-decreasing and
+    // not below the term before the start
+    for start in first..=last + 1 {
+        if start > b.max_index {
+            break;
+        }
+        let tb = m.term_before(start).max(1);
+        for t1 in tb..=b.max_term {
+            out.push(Op::Append {
+                start: start as u8,
+                n: 1,
+                t: [t1 as u8, 0],
+            });
+            if start < b.max_index {
+                for t2 in t1..=b.max_term {
+                    out.push(Op::Append {
+                        start: start as u8,
+                        n: 2,
+                        t: [t1 as u8, t2 as u8],
+                    });
+                }
+            }
+        }
+    }
+    for c in 0..=last {
+        out.push(Op::Compact(c as u8));
+    }
+    for i in 0..=b.max_index {
+        if i < first {
+            // out of date: the answer does not depend on term / conf state
+            out.push(Op::Snap { i: i as u8, t: 1, cs: 0 });
+            out.push(Op::Snap {
+                i: i as u8,
+                t: b.max_term as u8,
+                cs: 1,
+            });
+        } else {
+            for t in 1..=b.max_term {
+                for cs in 0..2u8 {
+                    out.push(Op::Snap {
+                        i: i as u8,
+                        t: t as u8,
+                        cs,
+                    });
+                }
+            }
+        }
+    }
+    let mut commits: Vec<u64> = vec![];
+    if !m.compacted_past_snapshot() {
+        commits.push(m.snap_i as u64);
+    }
+    commits.extend(first..=last);
+    for c in &commits {
+        for term in &b.hs_terms {
+            for vote in &b.votes {
+                out.push(Op::SetHs {
+                    term: *term,
+                    vote: *vote,
+                    commit: *c as u8,
+                });
+            }
+        }
+    }
+    for i in first..=last {
+        out.push(Op::CommitTo(i as u8));
+    }
+    for cs in 0..2u8 {
+        out.push(Op::SetCs(cs));
+    }
+}
+
+// ------------------------------------------------------------------------------------
+// counters
+
+macro_rules! counters {
+    ($($id:ident),* $(,)?) => {
+        #[allow(non_camel_case_types, dead_code)]
+        #[derive(Clone, Copy)]
+        enum C { $($id),*, _N }
+        const CNAMES: &[&str] = &[$(stringify!($id)),*];
+    };
+}
+
+counters!(
+    op_append_at_tail,
+    op_append_overwriting,
+    op_append_overwriting_and_shortening,
+    op_append_after_compaction,
+    op_append_after_snapshot,
+    op_compact_noop,
+    op_compact_removed_entries,
+    op_compact_beyond_commit,
+    op_snapshot_out_of_date,
+    op_snapshot_inside_log,
+    op_snapshot_inside_log_conflicting_term,
+    op_snapshot_at_last,
+    op_snapshot_beyond_log,
+    op_snapshot_lowered_commit,
+    op_set_hardstate,
+    op_commit_to,
+    op_set_conf_state,
+    err_snapshot_out_of_date,
+    err_term_compacted,
+    err_term_unavailable,
+    err_entries_compacted,
+    term_ok_stored_entry,
+    term_ok_snapshot_point,
+    term_before_first_after_compaction_answered_compacted,
+    term_before_first_after_compaction_answered_term,
+    term_stale_snapshot_point_answered_term,
+    term_stale_snapshot_point_answered_compacted,
+    entries_reads_ok,
+    entries_limited_reads_truncated,
+    entries_at_least_one_rule_applied,
+    snapshot_reads_checked,
+    snapshot_states_skipped_commit_index_not_stored,
+    initial_state_checked,
+    empty_range_reads_ok,
+    empty_range_reads_panicked_on_empty_log,
+    sim_states_checked,
+    sim_out_of_date_snapshot_skipped,
+    sim_term_before_first_after_compaction_answered_term,
+    sim_term_before_first_after_compaction_answered_compacted,
+    sim_term_stale_snapshot_point_answered_term,
+    sim_term_stale_snapshot_point_answered_compacted,
+    probe_compact_last_plus_1,
+    probe_compact_last_plus_1_last_index_regressed,
+    probe_compact_last_plus_1_first_index_regressed,
+    probe_compact_last_plus_1_panicked,
+    probe_snapshot_above_commit,
+    probe_snapshot_above_commit_index_bumped_term_of_commit,
+    probe_snapshot_above_commit_other,
+);
+
+#[derive(Clone)]
+struct Stats {
+    c: Vec<u64>,
+    /// (depth, text) shortest example per probe
+    examples: BTreeMap<&'static str, (usize, String)>,
+}
+
+impl Stats {
+    fn new() -> Stats {
+        Stats {
+            c: vec![0; C::_N as usize],
+            examples: BTreeMap::new(),
+        }
+    }
+    #[inline]
+    fn inc(&mut self, k: C) {
+        self.c[k as usize] += 1;
+    }
+    fn get(&self, k: C) -> u64 {
+        self.c[k as usize]
+    }
+    fn example(&mut self, name: &'static str, depth: usize, f: impl FnOnce() -> String) {
+        match self.examples.get(name) {
+            Some((d, _)) if *d <= depth => {}
+            _ => {
+                self.examples.insert(name, (depth, f()));
+            }
+        }
+    }
+    fn merge(&mut self, o: &Stats) {
+        for k in 0..self.c.len() {
+            self.c[k] += o.c[k];
+        }
+        for (n, (d, s)) in &o.examples {
+            match self.examples.get(n) {
+                Some((d0, s0)) if (*d0, s0) <= (*d, s) => {}
+                _ => {
+                    self.examples.insert(n, (*d, s.clone()));
+                }
+            }
+        }
+    }
+}
+
+// ------------------------------------------------------------------------------------
+// driving the implementations
+
+fn apply_mem(s: &MemStorage, op: &Op) -> Result<(), Error> {
+    let mut c = s.wl();
+    match *op {
+        Op::Append { .. } => c.append(&op.entries()),
+        Op::Compact(i) => c.compact(i as u64),
+        Op::Snap { i, t, cs } => c.apply_snapshot(mk_snap(i as u64, t as u64, cs)),
+        Op::SetHs { term, vote, commit } => {
+            c.set_hardstate(mk_hs(term as u64, vote as u64, commit as u64));
+            Ok(())
+        }
+        Op::CommitTo(i) => c.commit_to(i as u64),
+        Op::SetCs(cs) => {
+            c.set_conf_state(cs_of(cs));
+            Ok(())
+        }
+    }
+}
+
+/// Replays a history on a fresh MemStorage. A panic poisons the lock, so the instance is
+/// dropped and the panic is reported with the index of the failing operation.
+fn build_mem(hist: &[Op]) -> Result<MemStorage, (usize, String, String)> {
+    let s = MemStorage::new();
+    for (k, op) in hist.iter().enumerate() {
+        match guarded(|| apply_mem(&s, op)) {
+            Ok(_) => {}
+            Err((msg, loc)) => return Err((k, msg, loc)),
+        }
+    }
+    Ok(s)
+}
+
+/// `model_before` is the model state the operation is applied in.
+fn apply_sim(s: &mut Store, op: &Op, model_before: &Model, after: &Model, st: &mut Stats) {
+    match *op {
+        Op::Append { .. } => s.apply_op(&WriteOp::Entries(op.entries())),
+        Op::Compact(c) => {
+            // SimStorage's Compact(idx) makes idx the dummy entry: MemStorage's compact(idx+1)
+            if c > 0 {
+                s.apply_op(&WriteOp::Compact(c as u64 - 1));
+            }
+        }
+        Op::Snap { i, t, cs } => {
+            if (i as u64) < model_before.first() {
+                // SimStorage has no out-of-date answer; the simulated application never
+                // applies a snapshot at or below its own
+                st.inc(C::sim_out_of_date_snapshot_skipped);
+            } else {
+                s.apply_op(&WriteOp::Snapshot(mk_snap(i as u64, t as u64, cs)));
+            }
+        }
+        Op::SetHs { .. } | Op::CommitTo(_) => {
+            s.apply_op(&WriteOp::Hs(mk_hs(
+                after.hs_term as u64,
+                after.hs_vote as u64,
+                after.hs_commit as u64,
+            )));
+        }
+        Op::SetCs(_) => {}
+    }
+}
+
+fn build_sim(hist: &[Op]) -> Result<Store, (String, String)> {
+    guarded(|| {
+        let mut st = Stats::new();
+        let mut s = Store::new(cs_of(0));
+        let mut m = Model::new();
+        for op in hist {
+            let before = m;
+            m.apply(op);
+            apply_sim(&mut s, op, &before, &m, &mut st);
+        }
+        s
+    })
+}
+
+#[derive(Debug, PartialEq)]
+enum TermAns {
+    Ok(u64),
+    Compacted,
+    Unavailable,
+    Other(String),
+}
+
+fn term_ans(r: &Result<u64, Error>) -> TermAns {
+    match r {
+        Ok(v) => TermAns::Ok(*v),
+        Err(Error::Store(StorageError::Compacted)) => TermAns::Compacted,
+        Err(Error::Store(StorageError::Unavailable)) => TermAns::Unavailable,
+        Err(e) => TermAns::Other(format!("{:?}", e)),
+    }
+}
+
+/// Canonical digest of the observable state of an implementation (used for the key).
+fn digest<S: Storage>(s: &S, w: &mut W, b: &Bounds, with_state: bool) {
+    let r = guarded(|| {
+        let mut w = W::default();
+        let first = s.first_index().unwrap_or(u64::MAX);
+        let last = s.last_index().unwrap_or(u64::MAX);
+        w.u64(first);
+        w.u64(last);
+        for i in 0..=b.max_index + 1 {
+            match term_ans(&s.term(i)) {
+                TermAns::Ok(v) => {
+                    w.u8(0);
+                    w.u64(v);
+                }
+                TermAns::Compacted => w.u8(1),
+                TermAns::Unavailable => w.u8(2),
+                TermAns::Other(_) => w.u8(3),
+            }
+        }
+        if first <= last && last <= b.max_index + 2 {
+            match s.entries(first, last + 1, None, GetEntriesContext::empty(false)) {
+                Ok(v) => {
+                    w.u64(v.len() as u64);
+                    for e in &v {
+                        w.entry(e);
+                    }
+                }
+                Err(_) => w.u8(0xfd),
+            }
+        }
+        if with_state {
+            match s.initial_state() {
+                Ok(rs) => {
+                    w.hs(&rs.hard_state);
+                    w.cs(&rs.conf_state);
+                }
+                Err(_) => w.u8(0xfc),
+            }
+        }
+        w
+    });
+    match r {
+        Ok(x) => w.0.extend_from_slice(&x.0),
+        Err(_) => w.u8(0xee),
+    }
+}
+
+fn state_key(mem: &MemStorage, sim: &Store, m: &Model, b: &Bounds) -> u128 {
+    let mut w = W::default();
+    m.write(&mut w);
+    digest(mem, &mut w, b, true);
+    w.u8(0x55);
+    digest(sim, &mut w, b, false);
+    w.key()
+}
+
+// ------------------------------------------------------------------------------------
+// the oracle on one state
+
+fn limited_len(sz: &[u64], lim: Option<u64>) -> usize {
+    match lim {
+        None => sz.len(),
+        Some(l) => {
+            let mut k = 1;
+            let mut sum = sz[0];
+            while k < sz.len() && sum.saturating_add(sz[k]) <= l {
+                sum += sz[k];
+                k += 1;
+            }
+            k
+        }
+    }
+}
+
+fn ents_str(v: &[Entry]) -> String {
+    let s: Vec<String> = v
+        .iter()
+        .map(|e| format!("({},t{},{}B)", e.index, e.term, e.data.len()))
+        .collect();
+    format!("[{}]", s.join(" "))
+}
+
+/// Evaluates every observer of `mk()` against the model. `is_mem` selects the full oracle
+/// (MemStorage) or the restricted read-side comparison (SimStorage).
+fn check_state<S: Storage>(
+    mk: &dyn Fn() -> Option<S>,
+    m: &Model,
+    is_mem: bool,
+    depth: usize,
+    st: &mut Stats,
+    out: &mut Vec<(String, String)>,
+) {
+    if !is_mem {
+        // read-side comparison only; keep MemStorage's non-vacuity counters unpolluted
+        let mut tmp = Stats::new();
+        check_state_inner(mk, m, false, depth, &mut tmp, out);
+        st.inc(C::sim_states_checked);
+        st.c[C::sim_term_before_first_after_compaction_answered_term as usize] +=
+            tmp.get(C::term_before_first_after_compaction_answered_term);
+        st.c[C::sim_term_before_first_after_compaction_answered_compacted as usize] +=
+            tmp.get(C::term_before_first_after_compaction_answered_compacted);
+        st.c[C::sim_term_stale_snapshot_point_answered_term as usize] +=
+            tmp.get(C::term_stale_snapshot_point_answered_term);
+        st.c[C::sim_term_stale_snapshot_point_answered_compacted as usize] +=
+            tmp.get(C::term_stale_snapshot_point_answered_compacted);
+        return;
+    }
+    check_state_inner(mk, m, true, depth, st, out);
+}
+
+fn check_state_inner<S: Storage>(
+    mk: &dyn Fn() -> Option<S>,
+    m: &Model,
+    is_mem: bool,
+    depth: usize,
+    st: &mut Stats,
+    out: &mut Vec<(String, String)>,
+) {
+    let Some(mut s) = mk() else {
+        out.push((
+            "machinery: cannot rebuild the state".into(),
+            "replaying the history failed".into(),
+        ));
+        return;
+    };
+    let (first, last) = (m.first(), m.last());
+    let ctx = || GetEntriesContext::empty(false);
+
+    // runs one call under catch_unwind; a panic is a violation and costs a fresh instance
+    macro_rules! call {
+        ($name:expr, $desc:expr, $e:expr) => {{
+            let r = guarded(|| $e);
+            match r {
+                Ok(r) => Some(r),
+                Err((msg, loc)) => {
+                    out.push((
+                        format!("panic in {}", $name),
+                        format!("{} panicked: {} @ {}", $desc, msg, loc),
+                    ));
+                    match mk() {
+                        Some(x) => s = x,
+                        None => return,
+                    }
+                    None
+                }
+            }
+        }};
+    }
+
+    // ---- first / last index
+    if let Some(r) = call!("first_index", "first_index()", s.first_index()) {
+        if !matches!(r, Ok(v) if v == first) {
+            out.push((
+                "first_index disagrees with the model".into(),
+                format!("first_index() = {:?}, model says {}", r, first),
+            ));
+        }
+    }
+    if let Some(r) = call!("last_index", "last_index()", s.last_index()) {
+        if !matches!(r, Ok(v) if v == last) {
+            out.push((
+                "last_index disagrees with the model".into(),
+                format!("last_index() = {:?}, model says {}", r, last),
+            ));
+        }
+    }
+
+    // ---- term(i) for every i in [0, last+1]
+    for i in 0..=last + 1 {
+        let Some(r) = call!("term", format!("term({})", i), s.term(i)) else {
+            break;
+        };
+        let a = term_ans(&r);
+        if i > last {
+            if a == TermAns::Unavailable {
+                st.inc(C::err_term_unavailable);
+            } else {
+                out.push((
+                    "term: index above last_index not answered with Unavailable".into(),
+                    format!("term({}) = {:?} with last_index {}", i, a, last),
+                ));
+            }
+        } else if i >= first {
+            let t = m.term_at(i).unwrap();
+            if a == TermAns::Ok(t) {
+                st.inc(C::term_ok_stored_entry);
+            } else {
+                out.push((
+                    "term: wrong answer for a stored entry".into(),
+                    format!("term({}) = {:?}, the entry stored there has term {}", i, a, t),
+                ));
+            }
+        } else if i == m.prev_i as u64 && !m.compacted_past_snapshot() {
+            if a == TermAns::Ok(m.snap_t as u64) {
+                st.inc(C::term_ok_snapshot_point);
+            } else {
+                out.push((
+                    "term: snapshot index not answered with the snapshot term".into(),
+                    format!(
+                        "term({}) = {:?}; {} is the snapshot point (= first_index-1) with term {}",
+                        i, a, i, m.snap_t
+                    ),
+                ));
+            }
+        } else if i == m.prev_i as u64 {
+            // compacted past the snapshot point: the trait doc says the term of
+            // first_index-1 "is retained"; the property only forbids wrong data
+            if a == TermAns::Ok(m.prev_t as u64) {
+                st.inc(C::term_before_first_after_compaction_answered_term);
+            } else if a == TermAns::Compacted {
+                st.inc(C::term_before_first_after_compaction_answered_compacted);
+                st.inc(C::err_term_compacted);
+            } else {
+                out.push((
+                    "term: wrong answer for the index before first_index".into(),
+                    format!(
+                        "term({}) = {:?}; the compacted entry there had term {} (permitted: that term or Compacted)",
+                        i, a, m.prev_t
+                    ),
+                ));
+            }
+        } else if i == m.snap_i as u64 {
+            if a == TermAns::Ok(m.snap_t as u64) {
+                st.inc(C::term_stale_snapshot_point_answered_term);
+            } else if a == TermAns::Compacted {
+                st.inc(C::term_stale_snapshot_point_answered_compacted);
+                st.inc(C::err_term_compacted);
+            } else {
+                out.push((
+                    "term: compacted index not answered with Compacted".into(),
+                    format!(
+                        "term({}) = {:?}; {} is a snapshot point of term {} that was compacted past (permitted: that term or Compacted)",
+                        i, a, i, m.snap_t
+                    ),
+                ));
+            }
+        } else if a == TermAns::Compacted {
+            st.inc(C::err_term_compacted);
+        } else {
+            out.push((
+                "term: compacted index not answered with Compacted".into(),
+                format!("term({}) = {:?} with first_index {}", i, a, first),
+            ));
+        }
+    }
+
+    // ---- entries(lo, hi, limit) for lo < hi <= last+1
+    let full: Vec<Entry> = (first..=last).map(|i| mk_entry(i, m.term_at(i).unwrap())).collect();
+    let sz: Vec<u64> = full.iter().map(|e| u64::from(e.compute_size())).collect();
+    'ents: for lo in 0..=last {
+        for hi in lo + 1..=last + 1 {
+            if lo < first {
+                for lim in [None, Some(0u64)] {
+                    let Some(r) = call!(
+                        "entries",
+                        format!("entries({}, {}, {:?})", lo, hi, lim),
+                        s.entries(lo, hi, lim, ctx())
+                    ) else {
+                        break 'ents;
+                    };
+                    match r {
+                        Err(Error::Store(StorageError::Compacted)) => st.inc(C::err_entries_compacted),
+                        other => out.push((
+                            "entries: compacted range not answered with Compacted".into(),
+                            format!(
+                                "entries({}, {}, {:?}) = {} with first_index {}",
+                                lo,
+                                hi,
+                                lim,
+                                match &other {
+                                    Ok(v) => format!("Ok({})", ents_str(v)),
+                                    Err(e) => format!("Err({:?})", e),
+                                },
+                                first
+                            ),
+                        )),
+                    }
+                }
+                continue;
+            }
+            let a = (lo - first) as usize;
+            let z = (hi - first) as usize;
+            let range = &full[a..z];
+            let rsz = &sz[a..z];
+            let one = rsz[0];
+            let two = if rsz.len() >= 2 { rsz[0] + rsz[1] } else { rsz[0] };
+            let limits = [
+                None,
+                Some(0u64),
+                Some(one),
+                Some(two),
+                Some(two - 1),
+                Some(u64::MAX),
+            ];
+            for lim in limits {
+                let Some(r) = call!(
+                    "entries",
+                    format!("entries({}, {}, {:?})", lo, hi, lim),
+                    s.entries(lo, hi, lim, ctx())
+                ) else {
+                    break 'ents;
+                };
+                let want = limited_len(rsz, lim);
+                if want < range.len() {
+                    st.inc(C::entries_limited_reads_truncated);
+                }
+                if let Some(l) = lim {
+                    if want == 1 && range.len() > 1 && one > l {
+                        st.inc(C::entries_at_least_one_rule_applied);
+                    }
+                }
+                match r {
+                    Ok(v) if v[..] == range[..want] => st.inc(C::entries_reads_ok),
+                    Ok(v) => {
+                        let kind = if v.is_empty() {
+                            "entries: empty result for a non-empty range"
+                        } else if v.len() > range.len() || v[..] != range[..v.len()] {
+                            "entries: wrong entries returned"
+                        } else if v.len() > want {
+                            "entries: size limit exceeded"
+                        } else {
+                            "entries: fewer entries than the size limit allows"
+                        };
+                        out.push((
+                            kind.into(),
+                            format!(
+                                "entries({}, {}, {:?}) = {}, expected {} (encoded sizes of the range: {:?})",
+                                lo,
+                                hi,
+                                lim,
+                                ents_str(&v),
+                                ents_str(&range[..want]),
+                                rsz
+                            ),
+                        ));
+                    }
+                    Err(e) => out.push((
+                        "entries: error for an available range".into(),
+                        format!(
+                            "entries({}, {}, {:?}) = Err({:?}) with first_index {} last_index {}",
+                            lo, hi, lim, e, first, last
+                        ),
+                    )),
+                }
+            }
+        }
+    }
+
+    if !is_mem {
+        return;
+    }
+
+    // ---- initial_state
+    if let Some(r) = call!("initial_state", "initial_state()", s.initial_state()) {
+        st.inc(C::initial_state_checked);
+        match r {
+            Ok(rs) => {
+                let hs = mk_hs(m.hs_term as u64, m.hs_vote as u64, m.hs_commit as u64);
+                if rs.hard_state != hs {
+                    out.push((
+                        "initial_state: hard state is not the stored one".into(),
+                        format!("initial_state().hard_state = {:?}, model says {:?}", rs.hard_state, hs),
+                    ));
+                }
+                if rs.conf_state != cs_of(m.cs) {
+                    out.push((
+                        "initial_state: conf state is not the stored one".into(),
+                        format!(
+                            "initial_state().conf_state = {:?}, model says {:?}",
+                            rs.conf_state,
+                            cs_of(m.cs)
+                        ),
+                    ));
+                }
+            }
+            Err(e) => out.push((
+                "initial_state: error".into(),
+                format!("initial_state() = Err({:?})", e),
+            )),
+        }
+    }
+
+    // ---- snapshot(request_index, to) for request_index <= stored commit
+    let commit = m.hs_commit as u64;
+    match m.commit_term() {
+        None => st.inc(C::snapshot_states_skipped_commit_index_not_stored),
+        Some(ct) => {
+            for req in 0..=commit {
+                let to = 1 + req % 3;
+                let Some(r) = call!(
+                    "snapshot",
+                    format!("snapshot({}, {})", req, to),
+                    s.snapshot(req, to)
+                ) else {
+                    break;
+                };
+                st.inc(C::snapshot_reads_checked);
+                match r {
+                    Err(e) => out.push((
+                        "snapshot: error instead of a snapshot".into(),
+                        format!("snapshot({}, {}) = Err({:?}) with commit {}", req, to, e, commit),
+                    )),
+                    Ok(sn) => {
+                        let md = sn.get_metadata();
+                        if md.index < req {
+                            out.push((
+                                "snapshot: index below the requested one".into(),
+                                format!("snapshot({}, {}) has index {}", req, to, md.index),
+                            ));
+                        }
+                        if md.index != commit {
+                            out.push((
+                                "snapshot: index is not the stored commit index".into(),
+                                format!(
+                                    "snapshot({}, {}) has index {}, stored commit is {}",
+                                    req, to, md.index, commit
+                                ),
+                            ));
+                        } else if md.term != ct {
+                            out.push((
+                                "snapshot: term is not the term of its index".into(),
+                                format!(
+                                    "snapshot({}, {}) has (index {}, term {}), index {} has term {}",
+                                    req, to, md.index, md.term, commit, ct
+                                ),
+                            ));
+                        }
+                        if *md.get_conf_state() != cs_of(m.cs) {
+                            out.push((
+                                "snapshot: conf state is not the stored one".into(),
+                                format!(
+                                    "snapshot({}, {}) carries {:?}, stored conf state is {:?}",
+                                    req,
+                                    to,
+                                    md.get_conf_state(),
+                                    cs_of(m.cs)
+                                ),
+                            ));
+                        }
+                    }
+                }
+            }
+            // informational probe (O3c): a request above the commit index
+            let req = commit + 1;
+            if let Ok(r) = guarded(|| s.snapshot(req, 1)) {
+                st.inc(C::probe_snapshot_above_commit);
+                match r {
+                    Ok(sn) if sn.get_metadata().index == req && sn.get_metadata().term == ct => {
+                        st.inc(C::probe_snapshot_above_commit_index_bumped_term_of_commit);
+                        let true_t = m.term_at(req);
+                        let name = if true_t.is_some() && true_t != Some(ct) {
+                            "probe_snapshot_above_commit_term_differs"
+                        } else {
+                            "probe_snapshot_above_commit"
+                        };
+                        st.example(name, depth, || {
+                            format!(
+                                "commit {} (term {}): snapshot({}, 1) = Ok(index {}, term {}); the log's term at {} is {:?}",
+                                commit, ct, req, req, ct, req, true_t
+                            )
+                        });
+                    }
+                    _ => st.inc(C::probe_snapshot_above_commit_other),
+                }
+            } else {
+                st.inc(C::probe_snapshot_above_commit_other);
+                match mk() {
+                    Some(x) => s = x,
+                    None => return,
+                }
+            }
+        }
+    }
+
+    // ---- separate sub-alphabet: empty in-range reads entries(lo, lo)
+    for lo in first..=last + 1 {
+        for lim in [None, Some(0u64)] {
+            match guarded(|| s.entries(lo, lo, lim, ctx())) {
+                Ok(Ok(v)) if v.is_empty() => st.inc(C::empty_range_reads_ok),
+                Ok(r) => out.push((
+                    "empty range read: wrong answer".into(),
+                    format!(
+                        "entries({}, {}, {:?}) = {} with first_index {} last_index {}",
+                        lo,
+                        lo,
+                        lim,
+                        match &r {
+                            Ok(v) => format!("Ok({})", ents_str(v)),
+                            Err(e) => format!("Err({:?})", e),
+                        },
+                        first,
+                        last
+                    ),
+                )),
+                Err((msg, loc)) => {
+                    if m.n == 0 {
+                        st.inc(C::empty_range_reads_panicked_on_empty_log);
+                        out.push((
+                            O3_KIND.into(),
+                            format!(
+                                "entries({}, {}, {:?}) panicked: {} @ {} (no entry stored; first_index {} last_index {}; expected Ok([]))",
+                                lo, lo, lim, msg, loc, first, last
+                            ),
+                        ));
+                    } else {
+                        out.push((
+                            "empty range read panics on a non-empty log".into(),
+                            format!(
+                                "entries({}, {}, {:?}) panicked: {} @ {} (first_index {} last_index {})",
+                                lo, lo, lim, msg, loc, first, last
+                            ),
+                        ));
+                    }
+                    match mk() {
+                        Some(x) => s = x,
+                        None => return,
+                    }
+                }
+            }
+        }
+    }
+
+}
+
+/// Informational probe (O3b): `compact(last+1)` — inside the documented panic bound,
+/// outside "the application must not compact beyond applied"; not part of the alphabet.
+fn probe_compact_beyond_last(hist: &[Op], m: &Model, depth: usize, st: &mut Stats) {
+    let (first, last) = (m.first(), m.last());
+    let Ok(p) = build_mem(hist) else { return };
+    st.inc(C::probe_compact_last_plus_1);
+    let r = guarded(|| {
+        let r = p.wl().compact(last + 1);
+        (r.is_ok(), p.first_index(), p.last_index())
+    });
+    match r {
+        Ok((ok, Ok(f2), Ok(l2))) => {
+            if l2 < last {
+                st.inc(C::probe_compact_last_plus_1_last_index_regressed);
+            }
+            if f2 < first {
+                st.inc(C::probe_compact_last_plus_1_first_index_regressed);
+            }
+            if l2 < last || f2 < first {
+                st.example("probe_compact_last_plus_1", depth, || {
+                    format!(
+                        "first_index {} last_index {} snapshot point {}: compact({}) returned ok={} and left first_index {} last_index {}",
+                        first, last, m.snap_i, last + 1, ok, f2, l2
+                    )
+                });
+            }
+        }
+        _ => st.inc(C::probe_compact_last_plus_1_panicked),
+    }
+}
+
+// ------------------------------------------------------------------------------------
+// search
+
+#[derive(Clone)]
+struct Node {
+    parent: u32,
+    op: Op,
+    model: Model,
+    depth: u16,
+    key: u128,
+}
+
+#[derive(Clone, Debug)]
+struct Found {
+    kind: String,
+    detail: String,
+    hist: Vec<Op>,
+}
+
+struct Cand {
+    key: u128,
+    model: Model,
+    parent: u32,
+    op_idx: u32,
+    op: Op,
+}
+
+#[derive(Default)]
+struct WorkerOut {
+    cands: Vec<Cand>,
+    found: Vec<Found>,
+    transitions: u64,
+    expanded: u64,
+}
+
+fn history(nodes: &[Node], id: u32) -> Vec<Op> {
+    let mut h = vec![];
+    let mut cur = id;
+    while cur != 0 {
+        h.push(nodes[cur as usize].op);
+        cur = nodes[cur as usize].parent;
+    }
+    h.reverse();
+    h
+}
+
+fn count_op(m: &Model, op: &Op, st: &mut Stats) {
+    let (first, last) = (m.first(), m.last());
+    match *op {
+        Op::Append { start, n, .. } => {
+            let start = start as u64;
+            if start > last {
+                st.inc(C::op_append_at_tail);
+            } else {
+                st.inc(C::op_append_overwriting);
+                if start + n as u64 - 1 < last {
+                    st.inc(C::op_append_overwriting_and_shortening);
+                }
+            }
+            if m.compacted_past_snapshot() {
+                st.inc(C::op_append_after_compaction);
+            }
+            if m.snap_i > 0 {
+                st.inc(C::op_append_after_snapshot);
+            }
+        }
+        Op::Compact(c) => {
+            let c = c as u64;
+            if c > first {
+                st.inc(C::op_compact_removed_entries);
+                if c > m.hs_commit as u64 {
+                    st.inc(C::op_compact_beyond_commit);
+                }
+            } else {
+                st.inc(C::op_compact_noop);
+            }
+        }
+        Op::Snap { i, t, .. } => {
+            let i = i as u64;
+            if i < first {
+                st.inc(C::op_snapshot_out_of_date);
+            } else if i > last {
+                st.inc(C::op_snapshot_beyond_log);
+            } else {
+                st.inc(C::op_snapshot_inside_log);
+                if i == last {
+                    st.inc(C::op_snapshot_at_last);
+                }
+                if m.term_at(i) != Some(t as u64) {
+                    st.inc(C::op_snapshot_inside_log_conflicting_term);
+                }
+            }
+            if i >= first && i < m.hs_commit as u64 {
+                st.inc(C::op_snapshot_lowered_commit);
+            }
+        }
+        Op::SetHs { .. } => st.inc(C::op_set_hardstate),
+        Op::CommitTo(_) => st.inc(C::op_commit_to),
+        Op::SetCs(_) => st.inc(C::op_set_conf_state),
+    }
+}
+
+/// Applies `op` after `hist` on fresh instances and compares the mutator's answer with the
+/// model. Returns the successor (mem, sim, model) or the violation.
+fn step(
+    hist: &[Op],
+    parent_sim: &Store,
+    m: &Model,
+    op: &Op,
+    st: &mut Stats,
+) -> Result<(MemStorage, Result<Store, String>, Model), (String, String)> {
+    let mem = match build_mem(hist) {
+        Ok(s) => s,
+        Err((k, msg, loc)) => {
+            return Err((
+                "machinery: history no longer replays".into(),
+                format!("operation #{} panicked on replay: {} @ {}", k, msg, loc),
+            ))
+        }
+    };
+    let mut m2 = *m;
+    let want = m2.apply(op);
+    let got = match guarded(|| apply_mem(&mem, op)) {
+        Ok(r) => r,
+        Err((msg, loc)) => {
+            return Err((
+                format!("panic in {}", op.name()),
+                format!(
+                    "{} within its documented preconditions panicked: {} @ {} (state before: {})",
+                    op.to_json(),
+                    msg,
+                    loc,
+                    m.describe()
+                ),
+            ))
+        }
+    };
+    match (want, &got) {
+        (Expect::Ok, Ok(())) => {}
+        (Expect::OutOfDate, Err(Error::Store(StorageError::SnapshotOutOfDate))) => {
+            st.inc(C::err_snapshot_out_of_date);
+        }
+        (Expect::OutOfDate, _) => {
+            return Err((
+                "apply_snapshot: out-of-date snapshot not answered with SnapshotOutOfDate".into(),
+                format!("{} returned {:?} (state before: {})", op.to_json(), got, m.describe()),
+            ))
+        }
+        (Expect::Ok, Err(e)) => {
+            return Err((
+                format!("{}: error within documented preconditions", op.name()),
+                format!("{} returned Err({:?}) (state before: {})", op.to_json(), e, m.describe()),
+            ))
+        }
+    }
+    let mut sim = parent_sim.clone();
+    let simr = guarded(|| {
+        apply_sim(&mut sim, op, m, &m2, st);
+    })
+    .map(|_| sim)
+    .map_err(|(msg, loc)| format!("{} panicked on SimStorage: {} @ {}", op.to_json(), msg, loc));
+    Ok((mem, simr, m2))
+}
+
+struct Shared<'a> {
+    nodes: &'a [Node],
+    visited: &'a HashMap<u128, u32>,
+    bounds: &'a Bounds,
+    stop: &'a AtomicBool,
+    deadline: Instant,
+}
+
+fn is_blocking(kind: &str) -> bool {
+    kind != O3_KIND
+}
+
+fn process(sh: &Shared, id: u32, st: &mut Stats, local: &mut HashSet<u128>, out: &mut WorkerOut) {
+    let node = &sh.nodes[id as usize];
+    let m = node.model;
+    let hist = history(sh.nodes, id);
+    let depth = hist.len();
+
+    // 1. the full oracle on this state
+    let mut v: Vec<(String, String)> = vec![];
+    let mk_mem = || build_mem(&hist).ok();
+    check_state(&mk_mem, &m, true, depth, st, &mut v);
+    probe_compact_beyond_last(&hist, &m, depth, st);
+    let sim = match build_sim(&hist) {
+        Ok(s) => s,
+        Err((msg, loc)) => {
+            out.found.push(Found {
+                kind: format!("{}history panicked", SIM_PREFIX),
+                detail: format!("{} @ {}", msg, loc),
+                hist: hist.clone(),
+            });
+            return;
+        }
+    };
+    let mut vs: Vec<(String, String)> = vec![];
+    let mk_sim = || Some(sim.clone());
+    check_state(&mk_sim, &m, false, depth, st, &mut vs);
+    let mut blocked = false;
+    let mut seen: HashSet<String> = HashSet::new();
+    for (k, d) in v {
+        blocked |= is_blocking(&k);
+        if seen.insert(k.clone()) {
+            out.found.push(Found {
+                kind: k,
+                detail: format!("{} — {}", d, m.describe()),
+                hist: hist.clone(),
+            });
+        }
+    }
+    for (k, d) in vs {
+        blocked = true;
+        let k = format!("{}{}", SIM_PREFIX, k);
+        if seen.insert(k.clone()) {
+            out.found.push(Found {
+                kind: k,
+                detail: format!("{} — {}", d, m.describe()),
+                hist: hist.clone(),
+            });
+        }
+    }
+    if blocked {
+        // implementation and model have diverged: successors would only repeat it
+        return;
+    }
+
+    // 2. every operation of the alphabet
+    out.expanded += 1;
+    let mut ops = vec![];
+    alphabet(&m, sh.bounds, &mut ops);
+    let mut h2 = hist.clone();
+    for (oi, op) in ops.iter().enumerate() {
+        debug_assert!(m.legal(op));
+        count_op(&m, op, st);
+        out.transitions += 1;
+        match step(&hist, &sim, &m, op, st) {
+            Err((k, d)) => {
+                h2.push(*op);
+                out.found.push(Found {
+                    kind: k,
+                    detail: d,
+                    hist: h2.clone(),
+                });
+                h2.pop();
+            }
+            Ok((mem, simr, m2)) => {
+                let sim2 = match simr {
+                    Ok(s) => s,
+                    Err(d) => {
+                        h2.push(*op);
+                        out.found.push(Found {
+                            kind: format!("{}operation panicked", SIM_PREFIX),
+                            detail: d,
+                            hist: h2.clone(),
+                        });
+                        h2.pop();
+                        continue;
+                    }
+                };
+                let key = state_key(&mem, &sim2, &m2, sh.bounds);
+                if sh.visited.contains_key(&key) || !local.insert(key) {
+                    continue;
+                }
+                out.cands.push(Cand {
+                    key,
+                    model: m2,
+                    parent: id,
+                    op_idx: oi as u32,
+                    op: *op,
+                });
+            }
+        }
+    }
+}
+
+fn shuffle(v: &mut [u32], seed: u64) {
+    if seed == 0 {
+        return;
+    }
+    let mut x = seed ^ 0x9e3779b97f4a7c15;
+    for i in (1..v.len()).rev() {
+        x ^= x << 13;
+        x ^= x >> 7;
+        x ^= x << 17;
+        let j = (x % (i as u64 + 1)) as usize;
+        v.swap(i, j);
+    }
+}
+
+pub fn run(tier: &str, seed: u64, budget_s: f64, threads: usize) -> CompResult {
+    let t0 = Instant::now();
+    let b = bounds_for(tier);
+    let threads = threads.clamp(1, 64);
+    let deadline = t0 + std::time::Duration::from_secs_f64((budget_s * 0.85).max(1.0));
+
+    let mut st = Stats::new();
+    let m0 = Model::new();
+    let key0 = {
+        let mem = MemStorage::new();
+        let sim = Store::new(cs_of(0));
+        state_key(&mem, &sim, &m0, &b)
+    };
+    let mut nodes: Vec<Node> = vec![Node {
+        parent: 0,
+        op: Op::SetCs(0),
+        model: m0,
+        depth: 0,
+        key: key0,
+    }];
+    let mut visited: HashMap<u128, u32> = HashMap::new();
+    visited.insert(key0, 0);
+    let mut frontier: Vec<u32> = vec![0];
+    let mut transitions = 0u64;
+    let mut expanded = 0u64;
+    let mut cap_hit: Option<String> = None;
+    // kind -> shortest (detail, history)
+    let mut found: BTreeMap<String, Found> = BTreeMap::new();
+    let mut found_order: Vec<String> = vec![];
+    let mut max_depth = 0usize;
+    let mut level_sizes: Vec<usize> = vec![];
+    let mut first_violation_level: Option<usize> = None;
+
+    while !frontier.is_empty() {
+        shuffle(&mut frontier, seed.wrapping_add(level_sizes.len() as u64 * 7919));
+        level_sizes.push(frontier.len());
+        let stop = AtomicBool::new(false);
+        let next = AtomicUsize::new(0);
+        let sh = Shared {
+            nodes: &nodes,
+            visited: &visited,
+            bounds: &b,
+            stop: &stop,
+            deadline,
+        };
+        let fr = &frontier;
+        let mut outs: Vec<(WorkerOut, Stats)> = vec![];
+        std::thread::scope(|scope| {
+            let mut hs = vec![];
+            for _ in 0..threads {
+                let sh = &sh;
+                let next = &next;
+                hs.push(scope.spawn(move || {
+                    let mut out = WorkerOut::default();
+                    let mut st = Stats::new();
+                    let mut local: HashSet<u128> = HashSet::new();
+                    loop {
+                        if sh.stop.load(Ordering::Relaxed) {
+                            break;
+                        }
+                        let k = next.fetch_add(8, Ordering::Relaxed);
+                        if k >= fr.len() {
+                            break;
+                        }
+                        if Instant::now() > sh.deadline {
+                            sh.stop.store(true, Ordering::Relaxed);
+                            break;
+                        }
+                        for id in &fr[k..(k + 8).min(fr.len())] {
+                            process(sh, *id, &mut st, &mut local, &mut out);
+                        }
+                    }
+                    (out, st)
+                }));
+            }
+            for h in hs {
+                match h.join() {
+                    Ok(x) => outs.push(x),
+                    Err(_) => {}
+                }
+            }
+        });
+        if outs.len() != threads {
+            cap_hit = Some("machinery: a worker thread died".into());
+        }
+        let timed_out = stop.load(Ordering::Relaxed);
+        let mut cands: Vec<Cand> = vec![];
+        let mut fl: Vec<Found> = vec![];
+        for (o, s) in outs {
+            st.merge(&s);
+            transitions += o.transitions;
+            expanded += o.expanded;
+            cands.extend(o.cands);
+            fl.extend(o.found);
+        }
+        // deterministic choice among equally short witnesses
+        fl.sort_by(|a, c| {
+            (a.hist.len(), format!("{:?}", a.hist)).cmp(&(c.hist.len(), format!("{:?}", c.hist)))
+        });
+        for f in fl {
+            if !found.contains_key(&f.kind) {
+                found_order.push(f.kind.clone());
+                found.insert(f.kind.clone(), f);
+            }
+        }
+        cands.sort_by_key(|c| (c.parent, c.op_idx));
+        let mut nf = vec![];
+        for c in cands {
+            if visited.contains_key(&c.key) {
+                continue;
+            }
+            let id = nodes.len() as u32;
+            let depth = nodes[c.parent as usize].depth + 1;
+            max_depth = max_depth.max(depth as usize);
+            visited.insert(c.key, id);
+            nodes.push(Node {
+                parent: c.parent,
+                op: c.op,
+                model: c.model,
+                depth,
+                key: c.key,
+            });
+            nf.push(id);
+        }
+        frontier = nf;
+        if cap_hit.is_some() {
+            break;
+        }
+        if timed_out {
+            cap_hit = Some(format!(
+                "time budget ({:.0} s) reached at depth {}",
+                budget_s,
+                level_sizes.len() - 1
+            ));
+            break;
+        }
+        let blocking = found.keys().filter(|k| is_blocking(k) && !k.starts_with(SIM_PREFIX)).count();
+        if blocking > 0 && first_violation_level.is_none() {
+            first_violation_level = Some(level_sizes.len());
+        }
+        if blocking >= 5 || first_violation_level.map_or(false, |l| level_sizes.len() >= l + 2) {
+            // shortest witnesses are already in hand (BFS order); two more levels were
+            // searched for further kinds
+            cap_hit = Some(format!("stopped after {} distinct violation kinds", blocking));
+            break;
+        }
+        if nodes.len() > b.max_states {
+            cap_hit = Some(format!("state cap {} reached", b.max_states));
+            break;
+        }
+    }
+
+    // ---- determinism self-check: re-execute sampled histories from the initial state
+    let mut validated = 0u64;
+    let mut nondet: Option<String> = None;
+    {
+        let n = nodes.len();
+        let want = 600usize.min(n);
+        let stride = (n / want.max(1)).max(1);
+        let mut k = 0usize;
+        while k < n && Instant::now() < t0 + std::time::Duration::from_secs_f64(budget_s.max(2.0)) {
+            let id = ((k as u64 + seed) % n as u64) as u32;
+            let h = history(&nodes, id);
+            let mut m = Model::new();
+            for op in &h {
+                m.apply(op);
+            }
+            let ok = match (build_mem(&h), build_sim(&h)) {
+                (Ok(mem), Ok(sim)) => {
+                    m == nodes[id as usize].model
+                        && state_key(&mem, &sim, &m, &b) == nodes[id as usize].key
+                }
+                _ => false,
+            };
+            if !ok && nondet.is_none() {
+                nondet = Some(format!("history of state {} does not reproduce its key", id));
+            }
+            validated += 1;
+            k += stride;
+        }
+    }
+
+    // ---- result
+    let sim_dis: Vec<&Found> = found_order
+        .iter()
+        .filter(|k| k.starts_with(SIM_PREFIX))
+        .map(|k| &found[k])
+        .collect();
+    let machinery: Vec<&Found> = found_order
+        .iter()
+        .filter(|k| k.starts_with("machinery:"))
+        .map(|k| &found[k])
+        .collect();
+    let mut violations = vec![];
+    for k in &found_order {
+        if k.starts_with(SIM_PREFIX) || k.starts_with("machinery:") {
+            continue;
+        }
+        let f = &found[k];
+        violations.push((f.kind.clone(), f.detail.clone(), hist_json(&f.hist)));
+    }
+
+    let must: &[C] = &[
+        C::op_append_at_tail,
+        C::op_append_overwriting,
+        C::op_append_overwriting_and_shortening,
+        C::op_append_after_compaction,
+        C::op_append_after_snapshot,
+        C::op_compact_noop,
+        C::op_compact_removed_entries,
+        C::op_snapshot_out_of_date,
+        C::op_snapshot_inside_log,
+        C::op_snapshot_inside_log_conflicting_term,
+        C::op_snapshot_beyond_log,
+        C::op_set_hardstate,
+        C::op_commit_to,
+        C::op_set_conf_state,
+        C::err_snapshot_out_of_date,
+        C::err_term_compacted,
+        C::err_term_unavailable,
+        C::err_entries_compacted,
+        C::term_ok_stored_entry,
+        C::term_ok_snapshot_point,
+        C::entries_reads_ok,
+        C::entries_limited_reads_truncated,
+        C::entries_at_least_one_rule_applied,
+        C::snapshot_reads_checked,
+        C::initial_state_checked,
+        C::sim_states_checked,
+    ];
+    let clean = violations.iter().all(|(k, _, _)| !is_blocking(k));
+    let mut zero: Vec<&str> = vec![];
+    if clean {
+        for c in must {
+            if st.get(*c) == 0 {
+                zero.push(CNAMES[*c as usize]);
+            }
+        }
+        // the empty-range sub-alphabet must have been exercised one way or the other
+        if st.get(C::empty_range_reads_ok) + st.get(C::empty_range_reads_panicked_on_empty_log) == 0 {
+            zero.push("empty_range_reads");
+        }
+    }
+    let mut nonvacuous = zero.is_empty();
+    let mut notes: Vec<String> = vec![];
+    if let Some(f) = sim_dis.first() {
+        nonvacuous = false;
+        notes.push(format!(
+            "{} {} after {}",
+            f.kind,
+            f.detail,
+            hist_json(&f.hist)["history"]
+        ));
+    }
+    if let Some(f) = machinery.first() {
+        nonvacuous = false;
+        notes.push(format!("{} {}", f.kind, f.detail));
+    }
+    if let Some(n) = &nondet {
+        nonvacuous = false;
+        notes.push(format!("machinery: non-deterministic replay: {}", n));
+    }
+    if !zero.is_empty() {
+        notes.push(format!("vacuous: counters at zero: {}", zero.join(", ")));
+    }
+    if !notes.is_empty() {
+        let n = notes.join("; ");
+        cap_hit = Some(match cap_hit {
+            Some(c) => format!("{}; {}", n, c),
+            None => n,
+        });
+    }
+    let exhaustive = cap_hit.is_none();
+
+    let mut counters = serde_json::Map::new();
+    for (k, name) in CNAMES.iter().enumerate() {
+        counters.insert(name.to_string(), json!(st.c[k]));
+    }
+    let o3_found = found.get(O3_KIND);
+    let stats = json!({
+        "bounds": {
+            "max_index": b.max_index, "max_term": b.max_term,
+            "hard_state_terms": b.hs_terms, "votes": b.votes,
+            "append_lengths": [1, 2], "conf_states": 2,
+        },
+        "states_expanded": expanded,
+        "max_depth": max_depth,
+        "level_sizes": level_sizes,
+        "counters": counters,
+        "simstorage": match sim_dis.first() {
+            Some(f) => json!({"agrees": false, "first": format!("{} {}", f.kind, f.detail), "ops": hist_json(&f.hist)}),
+            None => json!({"agrees": true, "compared": "first/last index, term(i), entries(lo<hi, limit) and their error cases"}),
+        },
+        "probes": {
+            "O3a_empty_range_read_on_empty_log": match o3_found {
+                Some(f) => json!({"verdict": "violation reported under its own kind", "kind": O3_KIND, "detail": f.detail, "ops": hist_json(&f.hist)}),
+                None => json!({"verdict": "no panic observed", "reads_ok": st.get(C::empty_range_reads_ok)}),
+            },
+            "O3b_compact_last_plus_1 (informational, outside the alphabet)": {
+                "probed_states": st.get(C::probe_compact_last_plus_1),
+                "last_index_regressed": st.get(C::probe_compact_last_plus_1_last_index_regressed),
+                "first_index_regressed": st.get(C::probe_compact_last_plus_1_first_index_regressed),
+                "panicked": st.get(C::probe_compact_last_plus_1_panicked),
+                "example": st.examples.get("probe_compact_last_plus_1").map(|x| x.1.clone()),
+            },
+            "O3c_snapshot_request_above_commit (informational, not demanded by the statement)": {
+                "probed_states": st.get(C::probe_snapshot_above_commit),
+                "index_bumped_to_request_with_term_of_commit_index": st.get(C::probe_snapshot_above_commit_index_bumped_term_of_commit),
+                "other": st.get(C::probe_snapshot_above_commit_other),
+                "example": st.examples.get("probe_snapshot_above_commit_term_differs").or(st.examples.get("probe_snapshot_above_commit")).map(|x| x.1.clone()),
+            },
+            "term_of_first_index_minus_1_after_compaction (trait doc: retained; accepted: term or Compacted)": {
+                "memstorage_answered_Compacted": st.get(C::term_before_first_after_compaction_answered_compacted),
+                "memstorage_answered_term": st.get(C::term_before_first_after_compaction_answered_term),
+                "simstorage_answered_Compacted": st.get(C::sim_term_before_first_after_compaction_answered_compacted),
+                "simstorage_answered_term": st.get(C::sim_term_before_first_after_compaction_answered_term),
+            },
+        },
+    });
+
+    // samples: the deepest history, one from the middle, the last one found
+    let mut samples = vec![];
+    if !nodes.is_empty() {
+        let deepest = (0..nodes.len()).max_by_key(|i| (nodes[*i].depth, *i)).unwrap();
+        // a snapshot, then appends, then a compaction past the snapshot point
+        let rich = (0..nodes.len())
+            .filter(|i| {
+                let m = &nodes[*i].model;
+                m.snap_i > 0 && m.compacted_past_snapshot() && m.n > 1
+            })
+            .max_by_key(|i| (nodes[*i].depth, *i))
+            .unwrap_or(nodes.len() / 3);
+        let mut ids: Vec<usize> = vec![];
+        for id in [deepest, rich, nodes.len() / 2, nodes.len() / 3] {
+            if !ids.contains(&id) && ids.len() < 3 {
+                ids.push(id);
+            }
+        }
+        for id in ids {
+            let h = history(&nodes, id as u32);
+            samples.push(json!({
+                "engine": "memstorage",
+                "history": hist_json(&h)["history"],
+                "reaches": nodes[id].model.describe(),
+            }));
+        }
+    }
+
+    CompResult {
+        engine: "memstorage".into(),
+        states: nodes.len() as u64,
+        transitions,
+        validated,
+        exhaustive,
+        cap_hit,
+        samples,
+        stats,
+        violations,
+        nonvacuous,
+        wall_s: t0.elapsed().as_secs_f64(),
+    }
+}
+
+// ------------------------------------------------------------------------------------
+// replay
+
+pub fn replay(j: &Value) -> i32 {
+    let ops = j.get("ops").unwrap_or(j);
+    let Some(arr) = ops.get("history").and_then(|h| h.as_array()) else {
+        eprintln!("memstorage replay: no ops.history array");
+        return 2;
+    };
+    let want_kind = j.get("kind").and_then(|k| k.as_str()).map(|s| s.to_string());
+    let mut hist: Vec<Op> = vec![];
+    for o in arr {
+        match Op::from_json(o) {
+            Some(op) => hist.push(op),
+            None => {
+                eprintln!("memstorage replay: cannot parse operation {}", o);
+                return 2;
+            }
+        }
+    }
+    let mut st = Stats::new();
+    let mut m = Model::new();
+    let mut sim = Store::new(cs_of(0));
+    let mut all: Vec<(String, String)> = vec![];
+    println!("init MemStorage::new(): {}", m.describe());
+    for k in 0..hist.len() {
+        let op = hist[k];
+        if !m.legal(&op) {
+            eprintln!(
+                "memstorage replay: operation #{} {} is outside the documented preconditions in {}",
+                k,
+                op.to_json(),
+                m.describe()
+            );
+            return 2;
+        }
+        match step(&hist[..k], &sim, &m, &op, &mut st) {
+            Err((kind, d)) => {
+                println!("#{} {} -> VIOLATION [{}] {}", k, op.to_json(), kind, d);
+                all.push((kind, d));
+                break;
+            }
+            Ok((mem, simr, m2)) => {
+                m = m2;
+                match simr {
+                    Ok(s) => sim = s,
+                    Err(d) => {
+                        all.push((format!("{}operation panicked", SIM_PREFIX), d));
+                        break;
+                    }
+                }
+                println!(
+                    "#{} {} -> first_index {:?} last_index {:?}; {}",
+                    k,
+                    op.to_json(),
+                    mem.first_index(),
+                    mem.last_index(),
+                    m.describe()
+                );
+                if k + 1 == hist.len() {
+                    let h = &hist[..];
+                    let mk_mem = || build_mem(h).ok();
+                    let mut v = vec![];
+                    check_state(&mk_mem, &m, true, h.len(), &mut st, &mut v);
+                    all.extend(v);
+                    let mk_sim = || Some(sim.clone());
+                    let mut vs = vec![];
+                    check_state(&mk_sim, &m, false, h.len(), &mut st, &mut vs);
+                    all.extend(vs.into_iter().map(|(k, d)| (format!("{}{}", SIM_PREFIX, k), d)));
+                }
+            }
+        }
+    }
+    if hist.is_empty() {
+        let mk_mem = || build_mem(&[]).ok();
+        let mut v = vec![];
+        check_state(&mk_mem, &m, true, 0, &mut st, &mut v);
+        all.extend(v);
+        let mk_sim = || Some(sim.clone());
+        let mut vs = vec![];
+        check_state(&mk_sim, &m, false, 0, &mut st, &mut vs);
+        all.extend(vs.into_iter().map(|(k, d)| (format!("{}{}", SIM_PREFIX, k), d)));
+    }
+    let mut hit = false;
+    let mut seen = HashSet::new();
+    for (k, d) in &all {
+        if seen.insert(k.clone()) {
+            println!("violation [{}] {}", k, d);
+        }
+        match &want_kind {
+            Some(w) => hit |= w == k,
+            None => hit = true,
+        }
+    }
+    if hit {
+        println!(
+            "VIOLATION property={} reproduced",
+            j.get("property").and_then(|p| p.as_str()).unwrap_or("C19")
+        );
+        1
+    } else {
+        println!("no violation{} on this replay", want_kind.map(|k| format!(" of kind [{}]", k)).unwrap_or_default());
+        0
+    }
 }
